@@ -54,10 +54,12 @@ def gen_tables(rng, tier, max_h=40, max_p=80):
             d.update({'p_max': rng.uniform(0.1, 0.9), 'Q': rng.uniform(20, 200), 'gamma': rng.uniform(1.0, 6.0),
                       'A_s': rng.uniform(0.5, 1.5), 'Ccent': rng.choice([0.0, rng.uniform(-0.3, 0.3)]),
                       'Csat': rng.choice([0.0, rng.uniform(-0.3, 0.3)])})
-            if rng.random() < 0.5:
-                # strong conformity so that the branch decides real hosts
-                d.update({'logM1_EE': rng.uniform(11.3, 13.0), 'alpha_EE': rng.uniform(0.6, 1.4),
-                          'logM1_EL': rng.uniform(11.3, 14.2), 'alpha_EL': rng.uniform(0.6, 1.4)})
+            if rng.random() < 0.6:
+                # strong conformity so that the branch decides real hosts; any subset of the four keys may be given
+                conf = {'logM1_EE': rng.uniform(11.3, 13.0), 'alpha_EE': rng.uniform(0.3, 1.6),
+                        'logM1_EL': rng.uniform(11.3, 14.2), 'alpha_EL': rng.uniform(0.3, 1.6)}
+                keys = list(conf) if rng.random() < 0.5 else rng.sample(list(conf), rng.randrange(1, 4))
+                d.update({k: conf[k] for k in keys})
         return d
     return {'L': L, 'halos': halos, 'parts': parts, 'tracers': {t: tr(t) for t in tracers},
             'Mpart': 2.1e9, 'velz2kms': rng.uniform(20.0, 200.0),
